@@ -29,11 +29,12 @@ def main():
     checks = sys.argv[4:] or [prop]
     meta = json.load(open(os.path.join(out, "meta.json")))
     how = meta.get("demo_how_to_run", "")
-    m = re.findall(r"(\S*zz_demo_test\.go)", how)
-    dest = m[-1]
-    dest = re.sub(r"^/tmp/seed-C\d+/", "", dest)
+    m = re.findall(r"(\S*zz_\w*_test\.go)", how)
+    dest = m[-1].strip("`'\"(),")
+    dest = re.sub(r"^/tmp/seed\d*-C\d+/", "", dest)
     runname = re.search(r"-run\s+(\S+)", how).group(1)
-    tags = re.search(r"-tags\s+(\S+)", how)
+    tags = re.search(r"-tags\s+([\w,]+)", how)
+    race = ["-race"] if re.search(r"(^|\s)-race(\s|$)", how) and "[-race]" not in how else []
     pkg = "./" + os.path.dirname(dest) if os.path.dirname(dest) else "."
     scratch = f"/tmp/sc-{name}"
     subprocess.run(["git", "-C", "/repo", "worktree", "remove", "--force", scratch], stderr=subprocess.DEVNULL)
@@ -44,7 +45,7 @@ def main():
            "demo": {"file": dest, "run": runname, "tags": tags.group(1) if tags else None}, "ran": []}
     try:
         shutil.copy(os.path.join(out, "demo_test.go"), os.path.join(scratch, dest))
-        test = ["go", "test", "-vet=off", "-count=1", "-run", runname] + (["-tags", tags.group(1)] if tags else []) + [pkg]
+        test = ["go", "test", "-vet=off", "-count=1"] + race + ["-run", runname] + (["-tags", tags.group(1)] if tags else []) + [pkg]
         rc, o = run(test, scratch)
         res["demo_passes_without_change"] = rc == 0
         res["ran"].append(" ".join(test) + f"  (unchanged tree) -> rc {rc}")
